@@ -1,6 +1,7 @@
 (* C02 - Local delivery: exactly once, no lost wake-up, truthful send result. *)
 From Ergo Require Import Common.Base Sched.Model Sched.CountFacts Sched.QueueFacts Sched.TokenInv
   Sched.TokenProofs Sched.IdInv Sched.MailboxProofs Sched.Delayed Sched.MetaModel Sched.MetaProofs Sched.MetaIdProofs.
+From Ergo Require Mbox.Fallback Mbox.FallbackProofs.
 From Coq Require Import Sorting.Permutation.
 
 Definition reach sched named lim fb selfs initok others := run sched (init_cfg named lim fb selfs initok others).
@@ -130,3 +131,43 @@ Proof.
   vm_compute. split; [|repeat split; reflexivity].
   repeat constructor; cbn; intuition discriminate.
 Qed.
+
+(* ---- fallback chains and rings ------------------------------------------------------------------
+   A message refused by a full mailbox is re-routed to the process named as fallback, wrapped in
+   MessageFallback; that process may itself be full and name a fallback, and so on.  Model
+   Mbox/Fallback.v of the routing in node/core.go (after the fix "fallback loop"): for EVERY set of
+   processes, mailbox states and fallback names - chains, rings, self references, names nobody holds -
+   one send terminates; it ends in exactly one mailbox, that of the first process on the fallback path
+   from the addressee whose mailbox takes it, wrapped once per process that refused it (each at most once,
+   in path order), or the sender gets an error whose cause is on that path.  Before the fix a ring of full
+   mailboxes recursed for ever: one Send killed the node (fatal stack overflow). *)
+Module FB := Mbox.Fallback.
+Module FBP := Mbox.FallbackProofs.
+
+Theorem C02_fallback_routing_terminates : forall n procs to,
+  FBP.bounded n procs -> FB.send n procs to <> None.
+Proof. exact FBP.send_terminates. Qed.
+Print Assumptions C02_fallback_routing_terminates.
+
+Theorem C02_fallback_delivers_once_on_the_path : forall n procs to d ws,
+  FB.send n procs to = Some (FB.Delivered d ws) ->
+  FB.p_exists (procs d) = true /\ FB.p_full (procs d) = false /\ FBP.is_path procs to ws d /\ NoDup ws /\ ~ In d ws.
+Proof. exact FBP.send_delivers. Qed.
+Print Assumptions C02_fallback_delivers_once_on_the_path.
+
+Theorem C02_fallback_error_has_a_cause : forall procs start fuel to chain,
+  FBP.is_path procs start chain to ->
+  FB.route true fuel procs to chain = Some FB.ErrFull ->
+  exists last refusers, FBP.is_path procs start refusers last /\ FB.p_exists (procs last) = true /\ FB.p_full (procs last) = true /\
+    (FB.p_fb (procs last) = None \/ FB.p_fb (procs last) = Some last \/ In last refusers).
+Proof. exact FBP.route_error. Qed.
+Print Assumptions C02_fallback_error_has_a_cause.
+
+Theorem C02_fallback_ring_diverges_before_fix : forall fuel to chain,
+  (to < 2)%nat -> FB.route false fuel FBP.ring2 to chain = None.
+Proof. exact FBP.ring_diverges_before_fix. Qed.
+Print Assumptions C02_fallback_ring_diverges_before_fix.
+
+Example C02_fallback_examples :
+  FB.send 2 FBP.ring2 0 = Some FB.ErrFull /\ FB.send 3 FBP.chain3 0 = Some (FB.Delivered 2 [1; 0]%nat) /\ FBP.bounded 3 FBP.chain3.
+Proof. split; [exact (proj1 FBP.ring_after_fix)|]. exact FBP.chain_example. Qed.
